@@ -102,6 +102,9 @@ HOSTILE.append(chain_case(250))
 HOSTILE.append((["#define E(fmt, ...) f(fmt, ## __VA_ARGS__)", "#define THIRD(a, b, c, ...) c",
                  "#define PICK(x, ...) THIRD(x , ## __VA_ARGS__, 7, 9)", "#define LOG(lvl, fmt, ...) p(lvl, fmt , ##__VA_ARGS__)"],
                 "E(1,) E(1,2) E(1,2,3) E(1, ) E(,) PICK(1,) PICK(1,2) LOG(0, \"x\",) LOG(0, \"x\", a, b)"))
+# string and character constants that spell punctuation are ordinary argument tokens
+HOSTILE.append((["#define F(x) [x]", "#define G(x,y) x|y", "#define S(x) #x", "#define T(x) S(x)", "#define V(...) #__VA_ARGS__", "#define W(...) V(__VA_ARGS__)"],
+                "F(\",\") F(\")\") F(\"(\") F(',') F(')') F('(') G(\",\",1) G(\")\", \"(\") S(\",\") S(',') W(V(,)) T(V(,)) T(S(\")\")) F \"(\" 1"))
 # GNU extension: the comma is dropped when the variable argument is absent altogether
 HOSTILE.append((["#define E(fmt, ...) f(fmt, ## __VA_ARGS__)"], "E(1) E(x) end"))
 
@@ -370,6 +373,10 @@ def process_batch(ctx, drv, batch, work):
             elif val != want:
                 problems.append({"kind": "token sequence", "form": form, "expected": "".join(s + " " for _, s in want).strip(),
                                  "observed": "".join(s + " " for _, s in val).strip()})
+        if problems and gcc.open_at_end(defines, text, work):
+            # the probe leaves an invocation open at its end (the batch's guard line closed it for gcc): not self-contained
+            acc.excluded("invocation-open-at-end-of-text", cls=cls)
+            continue
         if problems:
             sh_defs, sh_text = shrink(drv, defines, text, work)
             (sg, _), = gcc.expand_texts([(sh_defs, sh_text)], work, name="shrunk.c")
@@ -395,7 +402,7 @@ def violates(drv, defines, text, work, signature=None):
     if any(PATHOLOGICAL.search(d.split(")", 1)[-1] if "(" in d.split()[1] else d) for d in defines):
         return False
     (gtext, diag), = gcc.expand_texts([(defines, text)], work, name="shrink.c")
-    if gtext is None:
+    if gtext is None or gcc.open_at_end(defines, text, work):
         return False
     (st, val), _ = drv.expand(defines, text, "define")
     if not (st == "exc" or val != pptok.atoms(gtext)):
@@ -480,7 +487,34 @@ def classify(drv, defines, text, work):
             return "variadic-stringify-loses-space-before-comma"
     if re.search(r"__VA_ARGS__\s*##|##\s*__VA_ARGS__|\w+\.\.\.\)[^\n]*##", bodies) and "..." in bodies:
         return "paste-adjacent-to-va-args-with-several-arguments"
+    if st == "ok" and re.search(r"#\s*\w+", bodies):
+        # the token sequences agree, and so do the strings produced by # once blanks are ignored: only the white
+        # space # records between tokens that came out of another expansion differs
+        strip = lambda atoms: [(k, x.replace(" ", "") if k == "str" else x) for k, x in atoms]
+        if strip(val) == strip(want) and val != want:
+            return "stringify-white-space-at-expansion-boundary"
+    objs = [re.match(r"#define (\w+)(?:\([^)]*\))?\s*(.*)$", d) for d in defines]      # name, replacement list (object- or function-like)
+    unbalanced = [m.group(1) for m in objs if m and m.group(2).count("(") != m.group(2).count(")")]
+    if st == "exc" and unbalanced and str(val).startswith(("IndexError", "RecursionError")):
+        # the same lost mark shows as an exception when the re-expansion meets an invocation with too few arguments
+        names = [m.group(1) for m in objs if m]
+        if any(re.search(r"\b%s\b" % re.escape(n), m.group(2)) for m in objs if m and m.group(1) in unbalanced for n in names):
+            return "painted-token-in-invocation-closed-outside-its-replacement"
+    if st == "ok" and unbalanced:
+        # an invocation opened inside one replacement list and closed outside it, whose argument holds a macro name that
+        # was not replaced because it is being expanded (a "painted" token): gcc keeps it, the code loses or re-expands it
+        names = [m.group(1) for m in objs if m]
+        gnames = [x for k, x in want if k == "id" and x in names]
+        cnames = [x for k, x in val if k == "id" and x in names]
+        if gnames != cnames:
+            return "painted-token-in-invocation-closed-outside-its-replacement"
     return None
+
+
+def d_head(define_line):
+    """'#define NAME(params)' head of a definition line (without the replacement list)."""
+    m = re.match(r"#define \w+(\([^)]*\))?", define_line)
+    return m.group(0) if m else define_line
 
 
 def arith_class(ctx, drv, work):
